@@ -108,7 +108,11 @@ def finish(rep, level="other", extra_cov=None, trusted_base=None, checker_cmd=No
     known = [k for k in load_known() if k.get("property") == rep.prop and k.get("status") == "known"]
     kidx = {(k["property"], k["rule"], k["site"], k["key"]): k for k in known}
     new, listed = [], []
+    seen_ident = set()
     for f in rep.findings:
+        if f.ident() in seen_ident:
+            continue
+        seen_ident.add(f.ident())
         if f.ident() in kidx:
             listed.append((f, kidx[f.ident()]))
         else:
